@@ -8,7 +8,7 @@
    tables in ELEMENT_TYPES order) with C08's `efilter` / `update_self`. *)
 From Coq Require Import ZArith List Bool Arith.
 Import ListNotations.
-From FV.C08 Require Import Table Model.
+From FV.C09 Require Import Table AttrModel.
 
 (* how a nodal variable is carried over by the three operations that select
    nodes by storage position: by id (true) or by the position in the node
